@@ -202,4 +202,20 @@ def rule_first(ctx: Ctx):
     c03.rule_first(ctx, rule="C14.first")
 
 
-RULES = [rule_flow, rule_collect, rule_none, rule_first]
+def rule_every_callback(ctx: Ctx):
+    """C14.collect: a before/on callback that is dropped at registration contributes no result (spec identity)."""
+    from . import c02
+
+    c02.rule_once(ctx, rule="C14.collect")
+    c02.rule_spec_identity(ctx, rule="C14.collect")
+
+
+def rule_stale_queue(ctx: Ctx):
+    """C14.first: triggers left in the queue by a failed event run in front of the next event, whose caller then
+    receives *their* result (first result wins)."""
+    from . import c04
+
+    c04.rule_clear(ctx, rule="C14.first")
+
+
+RULES = [rule_flow, rule_collect, rule_none, rule_first, rule_every_callback, rule_stale_queue]
